@@ -398,7 +398,7 @@ def run_case(ctx, case):
         except OSError:
             pass
     c2 = {k: case[k] for k in ("worklist", "worktable", "n_ops", "opseed", "fault", "with_file")}
-    ctx.case(c2, judge.nontrivial)
+    ctx.case(c2, judge.nontrivial, sample=dict(c2, executed_operations_tail=eng.tail(3)))
     if judge.unjudgeable:
         ctx.count("cases_with_unjudgeable_records")
 
